@@ -18,6 +18,10 @@ import (
 )
 
 func (vm *VM) runFunc(fn *Function, vars []reflect.Value) error {
+	simBegin(vm)
+	if simEnabled {
+		defer simEnd(vm)
+	}
 	vm.fn = fn
 	vm.vars = vars
 	var stop chan struct{}
@@ -90,6 +94,7 @@ func (vm *VM) run() (Addr, bool) {
 
 	for {
 
+		simInstr(vm)
 		if done != nil && atomic.LoadInt32(&vm.env.done) == 1 {
 			return vm.stop()
 		}
@@ -389,6 +394,7 @@ func (vm *VM) run() (Addr, bool) {
 
 		// Close
 		case OpClose:
+			simClose(vm, vm.general(a))
 			vm.general(a).Close()
 
 		// Complex
@@ -1400,12 +1406,16 @@ func (vm *VM) run() (Addr, bool) {
 					var ok bool
 					for {
 						if done == nil {
+							simBeforeRecv(vm, v)
 							u, ok = v.Recv()
+							simAfterChanOp(vm, nil, 0)
 						} else {
 							var chosen int
 							cas := reflect.SelectCase{Dir: reflect.SelectRecv, Chan: v}
 							vm.cases = append(vm.cases, cas, vm.env.doneCase)
+							simBeforeSelect(vm, vm.cases)
 							chosen, u, ok = reflect.Select(vm.cases)
+							simAfterChanOp(vm, vm.cases, chosen)
 							if chosen == 1 {
 								return vm.stop()
 							}
@@ -1494,12 +1504,16 @@ func (vm *VM) run() (Addr, bool) {
 			ch := vm.general(a)
 			var v reflect.Value
 			if done == nil {
+				simBeforeRecv(vm, ch)
 				v, vm.ok = ch.Recv()
+				simAfterChanOp(vm, nil, 0)
 			} else {
 				var chosen int
 				cas := reflect.SelectCase{Dir: reflect.SelectRecv, Chan: ch}
 				vm.cases = append(vm.cases, cas, vm.env.doneCase)
+				simBeforeSelect(vm, vm.cases)
 				chosen, v, vm.ok = reflect.Select(vm.cases)
+				simAfterChanOp(vm, vm.cases, chosen)
 				if chosen == 1 {
 					return vm.stop()
 				}
@@ -1609,10 +1623,14 @@ func (vm *VM) run() (Addr, bool) {
 			var recv reflect.Value
 			var recvOK bool
 			if done == nil || hasDefaultCase {
+				simBeforeSelect(vm, vm.cases)
 				chosen, recv, recvOK = reflect.Select(vm.cases)
+				simAfterChanOp(vm, vm.cases, chosen)
 			} else {
 				vm.cases = append(vm.cases, vm.env.doneCase)
+				simBeforeSelect(vm, vm.cases)
 				chosen, recv, recvOK = reflect.Select(vm.cases)
+				simAfterChanOp(vm, vm.cases, chosen)
 				if chosen == numCase {
 					return vm.stop()
 				}
@@ -1649,11 +1667,15 @@ func (vm *VM) run() (Addr, bool) {
 			v := reflect.New(elemType).Elem()
 			vm.getIntoReflectValue(a, v, op < 0)
 			if done == nil {
+				simBeforeSend(vm, ch)
 				ch.Send(v)
+				simAfterChanOp(vm, nil, 0)
 			} else {
 				cas := reflect.SelectCase{Dir: reflect.SelectSend, Chan: ch, Send: v}
 				vm.cases = append(vm.cases, cas, vm.env.doneCase)
+				simBeforeSelect(vm, vm.cases)
 				chosen, _, _ := reflect.Select(vm.cases)
+				simAfterChanOp(vm, vm.cases, chosen)
 				if chosen == 1 {
 					return vm.stop()
 				}
